@@ -384,6 +384,72 @@ func (c *CFG) EdgeFacts(b *cfg.Block, succ int) []Fact {
 	return out
 }
 
+// EdgeDisj returns the disjunctive facts of an edge: each group is a set of leaf facts of
+// which at least one holds on the edge (the false edge of `a && b`, the true edge of `a || b`).
+// Groups containing a non-leaf member are omitted.
+func (c *CFG) EdgeDisj(b *cfg.Block, succ int) [][]Fact {
+	cond := c.Cond(b)
+	if cond == nil || c.conds[cond] != nil {
+		return nil
+	}
+	var groups [][]Fact
+	var rec func(e ast.Expr, truth bool)
+	leaves := func(e ast.Expr, truth bool, op token.Token) ([]Fact, bool) {
+		// flatten a chain of op (LAND when truth==false, LOR when truth==true) into leaves
+		var out []Fact
+		ok := true
+		var fl func(e ast.Expr, truth bool)
+		fl = func(e ast.Expr, truth bool) {
+			e = Unparen(e)
+			switch x := e.(type) {
+			case *ast.UnaryExpr:
+				if x.Op == token.NOT {
+					fl(x.X, !truth)
+					return
+				}
+			case *ast.BinaryExpr:
+				// !(a && b) = !a || !b ; (a || b)
+				if (x.Op == token.LAND && !truth) || (x.Op == token.LOR && truth) {
+					fl(x.X, truth)
+					fl(x.Y, truth)
+					return
+				}
+				if x.Op == token.LAND || x.Op == token.LOR {
+					ok = false
+					return
+				}
+			}
+			out = append(out, Fact{C: c, B: b, Succ: succ, Expr: e, Truth: truth})
+		}
+		fl(e, truth)
+		return out, ok
+	}
+	rec = func(e ast.Expr, truth bool) {
+		e = Unparen(e)
+		switch x := e.(type) {
+		case *ast.UnaryExpr:
+			if x.Op == token.NOT {
+				rec(x.X, !truth)
+				return
+			}
+		case *ast.BinaryExpr:
+			if (x.Op == token.LAND && truth) || (x.Op == token.LOR && !truth) {
+				rec(x.X, truth)
+				rec(x.Y, truth)
+				return
+			}
+			if (x.Op == token.LAND && !truth) || (x.Op == token.LOR && truth) {
+				if g, ok := leaves(e, truth, x.Op); ok && len(g) > 1 {
+					groups = append(groups, g)
+				}
+				return
+			}
+		}
+	}
+	rec(cond, succ == 0)
+	return groups
+}
+
 // Guard describes a dominating edge found by Guarded.
 type Guard struct {
 	Fact Fact
@@ -446,6 +512,17 @@ func (c *CFG) GuardedBySet(target Loc, pred func(Fact) bool) bool {
 		for si := 0; si < 2; si++ {
 			for _, f := range c.EdgeFacts(b, si) {
 				if pred(f) {
+					cut[edge{b, si}] = true
+				}
+			}
+			for _, g := range c.EdgeDisj(b, si) {
+				all := true
+				for _, f := range g {
+					if !pred(f) {
+						all = false
+					}
+				}
+				if all {
 					cut[edge{b, si}] = true
 				}
 			}
